@@ -86,6 +86,7 @@ import re
 import numpy as np
 
 from ..ref import c15_large as L
+from ..ref import c15_options as O
 from ..ref import registry as R
 from ..runner import Acc
 
@@ -217,6 +218,11 @@ DOCUMENTED_UNIT = re.compile('|'.join([
 ]))
 
 
+# aperture_photometry / ApertureStats: "In the case of error, it must be defined in the uncertainty attribute with a
+# StdDevUncertainty instance" (docstrings): other uncertainty types are outside their documented domain
+STDDEV_ONLY = frozenset({'aperture_photometry', 'ApertureStats'})
+
+
 def conds(tier):
     # 'masked': a mask argument with True pixels inside the sources (NDData then carries a mask too)
     return ('clean', 'masked', 'negatives') if tier == 'thorough' else ('clean', 'masked')
@@ -250,6 +256,9 @@ def reps_for(r, tier='quick'):
         if rep == 'quantity' and not r.units:
             continue
         out.append(rep)
+    if r.nddata:
+        # forms of the NDData container: uncertainty type x unit form (+ the CCDData class)
+        out += [f for f in R.NDDATA_FORMS if r.units or R.nddata_base(f) == 'nddata']
     if tier == 'thorough':
         out += [f'{d}@{lay}' for d in R.C15_DTYPE_REPS for lay in R.C15_LAYOUTS]
     if r.units:
@@ -274,8 +283,20 @@ def large_units(tier):
     return out
 
 
+def option_units(tier):
+    """The options family: one unit per entry (the thorough product of the larger entries is split by representation)."""
+    out = []
+    for e in O.ENTRIES.values():
+        reps = O.reps_of(e)
+        if tier == 'thorough' and len(O.combos(e, tier)) > 400:
+            out += [{'options': e.label, 'reps': [rep]} for rep in reps]
+        else:
+            out.append({'options': e.label, 'reps': list(reps)})
+    return out
+
+
 def plan(tier, seed):
-    return large_units(tier) + [{'recipe': r.name, 'cond': cond} for r in numeric_recipes() for cond in conds(tier)]
+    return large_units(tier) + option_units(tier) + [{'recipe': r.name, 'cond': cond} for r in numeric_recipes() for cond in conds(tier)]
 
 
 def site_of(label, rep):
@@ -411,6 +432,10 @@ def run_recipe_cond(acc, r, cond, seed, only_rep=None, sample=False, tier='quick
         if domain != 'full' and cond == 'negatives':
             acc.skip('unsigned / 8-bit representation x negatives condition (the type cannot hold the negative pixels)')
             continue
+        if '+' in rep and name in STDDEV_ONLY and ('+var' in rep or '+ivar' in rep):
+            acc.skip('NDData with a Variance / InverseVariance uncertainty: the entry documents that the error must be given as a '
+                     'StdDevUncertainty (aperture_photometry, ApertureStats)')
+            continue
         c = R.run_recipe(name, rep, cond, seed, integer_scene=True, domain=domain)
         if c is None:
             acc.skip('combination not applicable')
@@ -430,7 +455,7 @@ def run_recipe_cond(acc, r, cond, seed, only_rep=None, sample=False, tier='quick
         if mixed and not (c.uses_companion and c.uses_data):
             acc.skip('recipe has no unit-ful companion argument (nothing to mix)')
             continue
-        scaled_leaves = runs.scaled() if rep in ('quantity', 'nddata_q') else None
+        scaled_leaves = runs.scaled() if (rep == 'quantity' or R.nddata_base(rep) == 'nddata_q') else None
         for i, (label, status) in enumerate(c.steps):
             b = base_out.get(label, None)
             case = dict(case0, step=label)
@@ -466,7 +491,7 @@ def run_recipe_cond(acc, r, cond, seed, only_rep=None, sample=False, tier='quick
                               detail=f'step {label!r} with data representation {rep!r}')
                 continue
             ol = leaves(R.norm(c.out.get(label)))
-            if rep in R.NDDATA_REPS and 'nddata.data' in ol and '<value>' in bl:
+            if R.nddata_base(rep) is not None and 'nddata.data' in ol and '<value>' in bl:
                 ol = {'<value>': ol['nddata.data']}      # an NDData in gives an NDData out (documented): compare its data
             acc.outcome((label, rep, len(ol)))
             if dtype_of(rep) in INT_REPS and label.startswith('Background2D'):
@@ -486,7 +511,7 @@ def run_recipe_cond(acc, r, cond, seed, only_rep=None, sample=False, tier='quick
                                   detail=f'step {label!r} output {path!r} with data representation {rep!r}'
                                          + (f' (value domain {domain!r})' if domain != 'full' else ''))
                     break
-            if rep in ('quantity', 'nddata_q'):
+            if scaled_leaves is not None:
                 sl = scaled_leaves.get(label)
                 for path, a in bl.items():
                     o = ol[path]
@@ -735,6 +760,65 @@ def run_large(acc, group, reps, seed, only=None, sample=False):
             acc.counters[f'large: tie in pixel set {name!r} ({domain}, {cond}) (per unit)'] += 1
 
 
+# -- the options family ---------------------------------------------------------------
+def run_options(acc, label, reps, tier, seed, only=None, sample=False):
+    """entry ``label``: every combination of its option alphabets x ``reps``, each output compared with the plain float64
+    call of the same combination (numbers: RTOL / RTOL_FIT; unit-ful representations: the declared unit)."""
+    e = O.ENTRIES[label]
+    env0 = O.Env('f8', seed)
+    envs = {rep: O.Env(rep, seed) for rep in reps}
+    fit = bool(FIT_STEPS.search(label)) or label == 'centroid_sources'
+    for opts in ([only] if only is not None else O.combos(e, tier)):
+        base = O.run(e, env0, opts)
+        if isinstance(base, R.Raised):
+            acc.case(nontrivial=False)
+            acc.skip('options: the float64 call raises for this combination (documented validation; nothing to compare)')
+            continue
+        bl = leaves(base)
+        for rep in reps:
+            case = {'family': 'options', 'entry': label, 'opts': opts, 'rep': rep}
+            o = O.run(e, envs[rep], opts)
+            acc.case(nontrivial=nnum(bl) > 0, key=(label, rep, tuple(sorted((k, str(v)) for k, v in opts.items()))) if nnum(bl) else None,
+                     sample=dict(case, status='ok' if not isinstance(o, R.Raised) else repr(o)) if (sample and acc.evaluations % 997 == 1) else None)
+            site = f'{label}[options]:{rep}'
+            if isinstance(o, R.Raised):
+                acc.violation('repr-raises', site, case, observed=repr(o), expected='succeeds as for the float64 ndarray',
+                              detail=f'{label} with options {opts} and the image given as {rep!r}')
+                continue
+            ol = leaves(o)
+            acc.outcome((label, rep, len(ol), tuple(sorted(ol))[:3]))
+            if set(ol) != set(bl):
+                acc.violation('repr-differs', site, case, observed=sorted(set(ol) ^ set(bl))[:6],
+                              expected='same output structure as the float64 call', detail=f'{label} with options {opts}')
+                continue
+            bad = False
+            for path, a in bl.items():
+                msg = cmp_leaf(a, ol[path], RTOL_FIT if fit else RTOL)
+                if msg:
+                    acc.violation('repr-differs', site, dict(case, output=path), observed=msg,
+                                  expected=f'equal to the float64 call within rtol {RTOL_FIT if fit else RTOL:g} of scale',
+                                  detail=f'{label} with options {opts}: output {path!r} with the image given as {rep!r}')
+                    bad = True
+                    break
+            if bad or rep not in O.UNITFUL:
+                continue
+            for path, v in ol.items():
+                if not (isinstance(v, tuple) and v[0] == 'num' and v[1].size):
+                    continue
+                k = e.powers.get(re.split(r'[.\[]', path, maxsplit=1)[0], None)
+                if k is None:
+                    acc.counters['options: unit not demanded for this output'] += 1
+                    continue
+                want = expected_unit(bl[path][2], k)
+                if same_unit(v[2], want):
+                    acc.counters['unit_checked_ok'] += 1
+                    continue
+                acc.violation('unit-wrong', site, dict(case, output=path), observed=f'unit {v[2]!r}',
+                              expected=f'unit {want.to_string()!r} (documented: data unit ** {k})',
+                              detail=f'{label} with options {opts}: output {path!r}')
+                break
+
+
 def run_unit(unit, tier, seed):
     acc = Acc()
     if 'large' in unit:
@@ -742,6 +826,9 @@ def run_unit(unit, tier, seed):
         run_large(acc, unit['large'], unit['reps'], seed, sample=True)
         for k, v in sorted(acc.worst.items()):
             acc.notes.append(f'{k} {v[0]:.3g} {v[1]} {v[2]} {v[3]}')
+        return acc
+    if 'options' in unit:
+        run_options(acc, unit['options'], unit['reps'], tier, seed, sample=True)
         return acc
     run_recipe_cond(acc, R.RECIPES[unit['recipe']], unit['cond'], seed, sample=True, tier=tier)
     return acc
@@ -752,6 +839,9 @@ def replay(case, seed):
     if case.get('family') == 'large':
         acc.worst = {}
         run_large(acc, case['group'], [case['rep']], seed, only=(case['entry'], case['cond']))
+        return acc
+    if case.get('family') == 'options':
+        run_options(acc, case['entry'], [case['rep']], 'thorough', seed, only=case['opts'])
         return acc
     run_recipe_cond(acc, R.RECIPES[case['recipe']], case['cond'], seed, only_rep=case['rep'], tier='thorough')
     return acc
